@@ -351,8 +351,19 @@ fn anonymous_lifetime_cases(tier: &str) -> Vec<XCase> {
             ("OpAssign<u32> for W<'_>", format!("{tr}"), format!("impl ::core::ops::{tra}<u32> for W<'_> {{ fn {fa}(&mut self, r: u32) {{ self.1 += r; }} }}"),
              format!("let z = 0u8; let a = W(&z, 1); let b = a {sym} 5u32; format!(\"{{}}\", b.1)"), "6".to_string()),
         ];
+        // references without a lifetime NESTED in the header types are anonymous lifetimes as well; a `'_` inside a
+        // fn-pointer type is not (it is higher-ranked over the pointer's own signature)
+        let mut bases = bases;
+        bases.push(("Op<u8> for G<&u8> with Output = Self", format!("{tr}"), format!("impl ::core::ops::{tr}<u8> for G<&u8> {{ type Output = Self; fn {f}(self, r: u8) -> Self {{ G(self.0, self.1 + r as u32) }} }}"),
+             format!("let z = 0u8; let a = G(&z, 1); let b = &a {sym} 5u8; let c = a {sym} &7u8; format!(\"{{}};{{}}\", b.1, c.1)"), "6;8".to_string()));
+        bases.push(("OpAssign<u8> for G<&u8>", format!("{tr}"), format!("impl ::core::ops::{tra}<u8> for G<&u8> {{ fn {fa}(&mut self, r: u8) {{ self.1 += r as u32; }} }}"),
+             format!("let z = 0u8; let a = G(&z, 1); let b = a {sym} 5u8; format!(\"{{}}\", b.1)"), "6".to_string()));
+        bases.push(("Op<u8> for G<fn(&'_ u8) -> u8> with Output = u32", format!("{tr}"), format!("impl ::core::ops::{tr}<u8> for G<fn(&'_ u8) -> u8> {{ type Output = u32; fn {f}(self, r: u8) -> u32 {{ self.1 + (self.0)(&r) as u32 }} }}"),
+             format!("fn id(x: &u8) -> u8 {{ *x }} let a: G<fn(&u8) -> u8> = G(id, 1); format!(\"{{}};{{}}\", &a {sym} 5u8, a {sym} &7u8)"), "6;8".to_string()));
+        bases.push(("Op<G<&u8>> for G<&'_ u8> (anonymous lifetimes in the self type and in Rhs)", format!("{tr}"), format!("impl ::core::ops::{tr}<G<&u8>> for G<&'_ u8> {{ type Output = u32; fn {f}(self, r: G<&u8>) -> u32 {{ self.1 + r.1 }} }}"),
+             format!("let z = 0u8; let a = G(&z, 1); let b = G(&z, 5); format!(\"{{}};{{}}\", &a {sym} &b, a {sym} &b)"), "6;6".to_string()));
         for (what, req, imp, run, exp) in bases {
-            let code = format!("use derive_ex::derive_ex;\n#[derive(Clone, Debug)] pub struct W<'a>(pub &'a u8, pub u32);\n#[derive_ex({req})]\n{imp}\npub fn run() -> String {{ {run} }}\n");
+            let code = format!("use derive_ex::derive_ex;\n#[derive(Clone, Debug)] pub struct W<'a>(pub &'a u8, pub u32);\n#[derive(Clone, Debug)] pub struct G<T>(pub T, pub u32);\n#[derive_ex({req})]\n{imp}\npub fn run() -> String {{ {run} }}\n");
             let mut atoms = BTreeSet::new();
             atoms.insert(format!("op={tr}"));
             atoms.insert("header=anonymous-lifetime".to_string());
